@@ -16,6 +16,11 @@ import sys
 import core
 
 
+# the "other process" of C14 also differs in its locale: plain C, no UTF-8 mode, no locale coercion - the preferred
+# encoding there is ASCII, so anything that silently relies on the platform default encoding shows
+OTHER_ENV = {"LC_ALL": "C", "LANG": "C", "PYTHONUTF8": "0", "PYTHONCOERCECLOCALE": "0"}
+
+
 def _write_msg(fd, obj):
     data = pickle.dumps(obj, protocol=4)
     data = struct.pack("<I", len(data)) + data
@@ -42,6 +47,13 @@ def _read_msg(fd):
 def evaluate_here(req):
     """Executed in the grandchild (and nowhere else): one construction, one run."""
     from simple_ddl_parser import DDLParser
+    if "from_file" in req:
+        # the file entry point, evaluated in this (other-environment) pristine process
+        from simple_ddl_parser import parse_from_file
+        try:
+            return ["ok", core.canon(parse_from_file(req["from_file"], parser_settings=dict(req.get("flags", {})), **req.get("run", {})))]
+        except BaseException as e:  # noqa
+            return core.outcome_of_exception(e)
     try:
         p = DDLParser(req["ddl"], **req.get("flags", {}))
     except BaseException as e:  # noqa
@@ -123,7 +135,7 @@ class Reference:
             import subprocess
             self.proc = subprocess.Popen([sys.executable, os.path.abspath(__file__), "--zygote", tree],
                                          stdin=subprocess.PIPE, stdout=subprocess.PIPE, stderr=subprocess.DEVNULL,
-                                         env=core.worker_env(hashseed))
+                                         env=core.worker_env(hashseed, OTHER_ENV))
             self.pid, self.wfd, self.rfd = self.proc.pid, self.proc.stdin.fileno(), self.proc.stdout.fileno()
             msg = _read_msg(self.rfd)
             if msg != "ready":
@@ -164,6 +176,19 @@ class Reference:
             raise RuntimeError("reference evaluation failed: %r" % (out,))
         self.memo[key] = out
         self.new_entries.append((key, out))
+        return out
+
+    def from_file(self, path, flags, run):
+        """parse_from_file(path, parser_settings=flags, **run) in a pristine process of this reference's environment.
+        Not memoised (the same path holds other content in other runs)."""
+        req = {"from_file": path, "flags": flags or {}, "run": run or {}}
+        if self.cwd:
+            req["cwd"] = self.cwd
+        self.calls += 1
+        _write_msg(self.wfd, req)
+        out = _read_msg(self.rfd)
+        if out and out[0] in ("crash", "harness-exc"):
+            raise RuntimeError("reference evaluation failed: %r" % (out,))
         return out
 
     def history(self, ddl, flags, runs):
